@@ -95,6 +95,12 @@ CHECKS = {
         text="Bounded-exhaustive exploration: for every re-export form (package plain/renamed/star, sibling plain) x origin __all__ x local definition x kind x nested x consumer form x every schedule: when the documented condition holds the object and all members are registered only under exporter.newname, the origin resolves the old name, find_object(old) is find_object(new) is the object, the consumer's name / base class lead to it, the url is the exporter's; otherwise the object stays where defined. One recorded finding (consumer naming the defining module) is excused by key and replayed each run.",
         note="Trusted: CrossHair's exhaustion verdict over the choice variables; lib/templates.py.",
     ),
+    "C03": dict(
+        level="exploration", design="DESIGN.md §3 C03",
+        technique="CrossHair (z3) enumerates statement-shape vectors (and literal shapes) and certifies exhaustion; each generated program is documented by the real builder and executed by CPython, namespaces/kinds/docstrings compared",
+        text="Bounded-exhaustive exploration: 7 800 two-statement programs (15 statement kinds squared x 6 wrappers x 4 docstring layouts x module/class scope) - the documented names, kinds (function, method, class method, static method, property, class, exception), cleaned docstrings, async flag and the nested-class namespaces equal what exec of the same text yields, nothing invented, nothing twice; 1 859 literal shapes - the inferred type is the value's actual type and an element type is never wrong.",
+        note="Trusted: CrossHair's exhaustion verdict over the choice variables; CPython exec/inspect as oracle; the generator tables in harness/c03_defs.py.",
+    ),
 }
 
 NOT_APPLICABLE = {
